@@ -115,7 +115,8 @@ def one_dialect(b, dname, engine, model_cls, ops, case, frames, full=True):
             msg = (err or "") + (base_err or "")
             union_order = ("should come after UNION ALL" in msg) and ("concat_rows" in B.op_sequence(case["recipe"])) \
                 and ("order_rows" in B.op_sequence(case["recipe"]))
-            if dname == "postgresql" and not (err or "").startswith("to_sql") and not (base_err or "").startswith("to_sql"):
+            if dname == "postgresql" and not (err or "").startswith("to_sql") and not (base_err or "").startswith("to_sql") \
+                    and any(t in msg for t in ("ON clause references tables to its right", "clause should come after UNION")):
                 # the text was generated; only the SQLite *surrogate* refused to run one of the variants (e.g. a
                 # parenthesised UNION member with its own ORDER BY/LIMIT, or "ON clause references tables to its
                 # right" for nested RIGHT JOINs, both fine on PostgreSQL): excluded and counted, not judged
@@ -177,7 +178,31 @@ def run_batch(seed, batch, tier):
         monitors.OBS.reset_case()
         try:
             with time_limit(120):
-                case, st = diff.new_case(b.rng, profile(tier, b.rng), tier, gl)
+                prof = profile(tier, b.rng)
+                case, st = diff.new_case(b.rng, prof, tier, gl)
+                if b.rng.random() < 0.3:
+                    # a shared sub-pipeline (optionally a shared top-k) feeding two consumers that need different columns
+                    from vf.checks.c10 import diamond
+
+                    g = R.Gen(b.rng, case["tables"], prof, gl)
+                    if b.rng.random() < 0.5:
+                        r_ = g.step_order_rows(st)
+                        if r_ is not None:
+                            stp = dict(r_[0])
+                            if stp.get("limit") is None:
+                                stp["limit"] = max(1, st.nrows() // 2 + 1)
+                            try:
+                                fr = g.apply(st, stp)
+                                node = dict(stp)
+                                node["src"] = st.node
+                                st = R.St(node, fr, st.kinds)
+                            except Exception:
+                                pass
+                    d = diamond(g, st, b.rng)
+                    if d is not None:
+                        case["recipe"] = d
+                        case["final_order"] = None
+                        b.count("diamond_shapes")
                 ops = B.build(case["recipe"])
                 ops_copy = B.build(case["recipe"])
                 frames = diff.used_frames(case)
